@@ -51,6 +51,9 @@ TIE_SEARCH = {
     "vec_iter_next_tie": ("TieIndex", "ObjVecIter::next"),
     "tuple_iter_next_same": ("TieIndex", "ObjTupleIter::next"),
     "resolve_local_tie": ("TieResolver", "Compiler::resolve_local"), "resolve_local_innermost": ("TieResolver", "Compiler::resolve_local"),
+    "declare_variable_spec": ("TieResolver", "Parser::declare_variable"), "redeclaration_is_reported": ("TieResolver", "Parser::declare_variable"),
+    "shadowing_is_allowed": ("TieResolver", "Parser::declare_variable"), "clash_test_matches_reference": ("TieResolver", "Parser::declare_variable"),
+    "add_local_spec": ("TieResolver", "Compiler::add_local"), "declared_then_initialised_is_found": ("TieResolver", "Compiler::add_local"),
     "emit_scope_end_spec": ("TieResolver", "Parser::emit_scope_end"), "captured_slots_are_closed": ("TieResolver", "Parser::emit_scope_end"),
     "scope_end_matches_reference": ("TieResolver", "Parser::emit_scope_end"),
     "add_upvalue_tie": ("TieResolver", "Compiler::add_upvalue"), "add_upvalue_spec": ("TieResolver", "Compiler::add_upvalue"),
